@@ -369,24 +369,53 @@ func cmdCheck(args []string) {
 				inconclusive = append(inconclusive, fmt.Sprintf("%s: cover witness %q does not replay natively (encoding mismatch): exit=%d out=%s", spec.Name, lab, oc.ExitCode, tail(oc.Output, 600)))
 			}
 		}
-		// violations
-		seen := map[string]bool{}
+		// violations: grouped by (kind, label, known region[, panic site]). The
+		// native run decides by itself what the environment does (codec
+		// outcome, scheduling), so up to 4 different solver witnesses of a group
+		// are replayed until one reproduces.
+		type vgroup struct {
+			key   string
+			cands []*Violation
+		}
+		var groups []*vgroup
+		gidx := map[string]*vgroup{}
 		for _, v := range hr.Violations {
 			key := v.Kind + "|" + v.Label + "|" + v.Known
 			if v.Kind != "assert" {
 				key += "|" + strings.SplitN(v.Where, " < ", 2)[0]
 			}
-			if seen[key] {
-				continue
+			g := gidx[key]
+			if g == nil {
+				g = &vgroup{key: key}
+				gidx[key] = g
+				groups = append(groups, g)
 			}
-			seen[key] = true
+			wj, _ := json.Marshal(v.Witness)
+			dup := false
+			for _, c := range g.cands {
+				cj, _ := json.Marshal(c.Witness)
+				if string(cj) == string(wj) {
+					dup = true
+					break
+				}
+			}
+			if !dup && len(g.cands) < 4 {
+				g.cands = append(g.cands, v)
+			}
+		}
+		for _, g := range groups {
+			key := g.key
+			v := g.cands[0]
 			h := sha1.Sum([]byte(spec.Name + key))
 			dir := filepath.Join(outDir, "replays", prop, fmt.Sprintf("%s-%s-%x", spec.Name, sanitize(v.Label), h[:4]))
 			os.MkdirAll(dir, 0o755)
 			witPath := filepath.Join(dir, "witness.json")
-			meta := map[string]interface{}{"property": prop, "harness": spec.Name, "pkg": spec.Pkg, "kind": v.Kind, "label": v.Label, "msg": v.Msg, "where": v.Where, "known": v.Known, "trace": v.Trace}
-			mb, _ := json.MarshalIndent(meta, "", " ")
-			os.WriteFile(filepath.Join(dir, "meta.json"), mb, 0o644)
+			writeMeta := func(v *Violation) {
+				meta := map[string]interface{}{"property": prop, "harness": spec.Name, "pkg": spec.Pkg, "kind": v.Kind, "label": v.Label, "msg": v.Msg, "where": v.Where, "known": v.Known, "trace": v.Trace}
+				mb, _ := json.MarshalIndent(meta, "", " ")
+				os.WriteFile(filepath.Join(dir, "meta.json"), mb, 0o644)
+			}
+			writeMeta(v)
 			if *noReplay {
 				wb, _ := json.MarshalIndent(v.Witness, "", " ")
 				os.WriteFile(witPath, wb, 0o644)
@@ -396,9 +425,18 @@ func cmdCheck(args []string) {
 			}
 			var oc *replayOutcome
 			var err error
-			for attempt := 0; attempt < 3; attempt++ {
-				oc, err = rp.run(spec.Pkg, spec.Name, v.Witness, witPath, 90*time.Second)
-				if err != nil || reproduced(v, oc) {
+			ok := false
+			for _, cand := range g.cands {
+				for attempt := 0; attempt < 2 && !ok; attempt++ {
+					oc, err = rp.run(spec.Pkg, spec.Name, cand.Witness, witPath, 90*time.Second)
+					if err != nil {
+						break
+					}
+					tracesValidated++
+					ok = reproduced(cand, oc)
+				}
+				if err != nil || ok {
+					v = cand
 					break
 				}
 			}
@@ -406,10 +444,10 @@ func cmdCheck(args []string) {
 				inconclusive = append(inconclusive, fmt.Sprintf("%s: replay machinery: %v", spec.Name, err))
 				continue
 			}
+			writeMeta(v)
 			os.WriteFile(filepath.Join(dir, "native_output.txt"), []byte(oc.Output), 0o644)
-			tracesValidated++
-			if !reproduced(v, oc) {
-				inconclusive = append(inconclusive, fmt.Sprintf("%s: counterexample for %s (%s) does not reproduce natively (encoding mismatch), see %s", spec.Name, v.Label, v.Msg, dir))
+			if !ok {
+				inconclusive = append(inconclusive, fmt.Sprintf("%s: counterexample for %s (%s) does not reproduce natively (encoding mismatch; %d witnesses tried), see %s", spec.Name, v.Label, v.Msg, len(g.cands), dir))
 				continue
 			}
 			if v.Known != "" {
